@@ -4,11 +4,12 @@ import Driver.IHexOps
 import Driver.ImageOps
 import Driver.VersionOps
 import Driver.SuitOps
+import Driver.SignOps
 /-! JSON-lines driver: one request object per line on stdin, one response per line on stdout.
 `{"op": name, ...}` → `{"ok": ...}` | `{"err": class}` | `{"bad": message}` (malformed request). -/
 open Lean Driver
 
-def handlers : List (String → Json → Option (M Json)) := [CacheOps.handle, IHexOps.handle, ImageOps.handle, VersionOps.handle, SuitOps.handle]
+def handlers : List (String → Json → Option (M Json)) := [CacheOps.handle, IHexOps.handle, ImageOps.handle, VersionOps.handle, SuitOps.handle, SignOps.handle]
 
 def dispatch (j : Json) : Json :=
   match strField j "op" with
